@@ -57,6 +57,7 @@ def handle (cmd : String) (args : List String) : Option String :=
         some (match accSparse pt d sc zero flags with
           | none => "err"
           | some (buf, fl) =>
+            if buf.isEmpty then "-" else
             " ".intercalate ((buf.zip fl).map fun (p, f) => s!"{p.1},{p.2},{if f then 1 else 0}"))
     | _, _, _, _ => none
   | "ap.dense", [[sc, n, hex]] =>
